@@ -14,6 +14,7 @@ from .. import rig as R, ref, gen, dump, hist
 from ..orch import h
 
 ID = "C09"
+TECHNIQUE = 'runtime monitoring - address model as constraints over consecutive dumps (older versions gone, a newest version kept, no other address touched) for all arrival orders of small histories and seeded long ones; unusual d tags, unindexable versions, low max_limit'
 LEVEL = "exploration"
 RULE = (
     "universe: 2 authors x kinds {0,3,1,10000,19999,30000,39999} x d in {absent, bare [\"d\"], \"\", a, ab, abc, e-acute} "
